@@ -1345,6 +1345,97 @@ def main(a):
 
 print(main(inp()))
 ''')
+_add("fixes.simplify_assign_immediate_return", "global-in-nested-function", '''
+counter = 0
+
+
+def make_counter():
+    def bump(step):
+        global counter
+        counter = counter + step
+        return counter
+
+    return bump
+
+
+bump = make_counter()
+print(bump(inp()), bump(1), counter)
+''')
+_add("fixes.simplify_assign_immediate_return", "nonlocal-parameter", '''
+def make_accumulator(total):
+    def add(amount):
+        nonlocal total
+        total = total + amount
+        return total
+
+    def current():
+        return total
+
+    return add, current
+
+
+add, current = make_accumulator(inp())
+print(add(inp()), add(7000), current())
+''')
+_add("fixes.simplify_assign_immediate_return", "nonlocal-two-levels-and-class", '''
+def outer(seed):
+    def middle():
+        def inner(v):
+            nonlocal seed
+            seed = seed * 2 + v
+            return seed
+
+        return inner
+
+    class Holder:
+        def read(self):
+            value = seed
+            return value
+
+    return middle(), Holder()
+
+
+inner, holder = outer(inp())
+print(inner(inp()), inner(1), holder.read())
+''')
+_add("symbolic_math.simplify_boolean_expressions_symmath", "absorption-of-comparisons", '''
+def main(x, y, z):
+    out = []
+    if (x > 1 and y < 2) or (x > 1 and y < 2 and z == 0):
+        out.append("absorbed")
+    if x > 1 and (x > 1 or y < 2):
+        out.append("and-or")
+    if not (not (y < 2) or not (z == 0)):
+        out.append("de-morgan")
+    return out
+
+
+print(main(inp(), inp(), inp()))
+''')
+_add("symbolic_math.simplify_boolean_expressions_symmath", "repeated-guard-on-attribute", '''
+class Node:
+    def __init__(self, size):
+        self.size = size
+
+
+def main(node):
+    if node is not None and node.size > 1 and node is not None:
+        return "big"
+    return "small"
+
+
+print(main(Node(inp())), main(None), main(Node(7000)))
+''')
+_add("symbolic_math.simplify_boolean_expressions_symmath", "calls-and-subscripts", '''
+def main(xs, k):
+    a = len(xs) > 1 and (len(xs) > 1 or xs[0] == k)
+    b = (xs[0] == k or k > 0) and (xs[0] == k or not k > 0)
+    c = (k > 0 and xs[0] == k) or (k > 0 and not xs[0] == k)
+    return a, b, c
+
+
+print(main([inp(), inp()], inp()))
+''')
 _add("fixes.replace_functions_with_literals", "all", '''
 def main(xs):
     a = list()
@@ -1362,6 +1453,48 @@ def main(xs):
 
 
 print(main([inp(), inp()]))
+''')
+_add("fixes.replace_for_loops_with_set_list_comp", "seeded-set", '''
+def main(xs, y):
+    seen = set([7, y])
+    for x in xs:
+        seen.add(x * 2)
+    return sorted(seen)
+
+
+print(main([inp(), inp()], inp()))
+''')
+_add("fixes.replace_for_loops_with_set_list_comp", "seeded-list-and-set-literal", '''
+def main(xs, y):
+    out = list((9, y))
+    for x in xs:
+        out.append(x + 1)
+    pool = {y, 7000}
+    for x in xs:
+        pool.add(x)
+    third = [y]
+    for x in xs:
+        if x > 0:
+            third.append(x)
+    return out, sorted(pool), third
+
+
+print(main([inp(), inp()], inp()))
+''')
+_add("fixes.replace_for_loops_with_set_list_comp", "seeded-set-from-iterable-variable", '''
+def main(xs, ys):
+    seen = set(ys)
+    for x in xs:
+        if x != 0:
+            seen.add(x)
+    frozen = frozenset(ys)
+    acc = set()
+    for x in frozen:
+        acc.add(x + 1)
+    return sorted(seen), sorted(acc)
+
+
+print(main([inp(), inp()], [inp(), 5]))
 ''')
 _add("fixes.replace_for_loops_with_set_list_comp", "variants", '''
 def main(xs):
@@ -2835,27 +2968,65 @@ def main(p, q):
 
 print(main(inp(), inp()))
 """)
-_add("performance_pandas.replace_iterrows_itertuples", "odd-column-names", _PD + """
+_add("performance_pandas.replace_iterrows_itertuples", "underscore-column", _PD + """
 def main(p, q):
-    df = pd.DataFrame({"_hidden": [p, q], "two words": [q, 2], "class": [1, p]})
+    df = pd.DataFrame({"_hidden": [p, q], "b": [q, 2]})
     out = []
     for _, row in df.iterrows():
-        out.append(row["_hidden"])
-    for _, row in df.iterrows():
-        out.append(row["two words"])
-    for _, row in df.iterrows():
-        out.append(row["class"])
+        out.append(row["_hidden"] + row["b"])
     return out
 
 
 print(main(inp(), inp()))
 """)
-_add("performance_pandas.replace_iterrows_itertuples", "column-named-index-or-count", _PD + """
+_add("performance_pandas.replace_iterrows_itertuples", "two-word-column", _PD + """
 def main(p, q):
-    df = pd.DataFrame({"Index": [p, q], "count": [q, 2]}, index=[7, 8])
+    df = pd.DataFrame({"two words": [p, q], "b": [q, 2]})
+    out = []
+    for _, row in df.iterrows():
+        out.append(row["two words"] + row["b"])
+    return out
+
+
+print(main(inp(), inp()))
+""")
+_add("performance_pandas.replace_iterrows_itertuples", "keyword-column", _PD + """
+def main(p, q):
+    df = pd.DataFrame({"class": [p, q], "b": [q, 2]})
+    out = []
+    for _, row in df.iterrows():
+        out.append(row["class"] + row["b"])
+    return out
+
+
+print(main(inp(), inp()))
+""")
+_add("performance_pandas.replace_iterrows_itertuples", "digit-column", _PD + """
+def main(p, q):
+    df = pd.DataFrame({"2nd": [p, q], "b": [q, 2]})
+    out = []
+    for _, row in df.iterrows():
+        out.append(row["2nd"] + row["b"])
+    return out
+
+
+print(main(inp(), inp()))
+""")
+_add("performance_pandas.replace_iterrows_itertuples", "column-named-Index", _PD + """
+def main(p, q):
+    df = pd.DataFrame({"Index": [p, q], "b": [q, 2]}, index=[7, 8])
     out = []
     for _, row in df.iterrows():
         out.append(row["Index"])
+    return out
+
+
+print(main(inp(), inp()))
+""")
+_add("performance_pandas.replace_iterrows_itertuples", "column-named-count", _PD + """
+def main(p, q):
+    df = pd.DataFrame({"count": [p, q], "b": [q, 2]}, index=[7, 8])
+    out = []
     for _, row in df.iterrows():
         out.append(row["count"])
     return out
